@@ -8,6 +8,7 @@ import (
 	"os"
 	"strconv"
 	"strings"
+	"time"
 
 	bip39 "github.com/islishude/bip39"
 
@@ -267,9 +268,18 @@ func init() {
 	}
 	replayers["check-returns"] = func(m *ref.Model, cs map[string]interface{}) bool {
 		s, l := string(unhex(cs["sentence"])), toInt(cs["lang"])
-		pn := call(func() { _ = bip39.CheckMnemonic(s, Langs[l]); _ = bip39.IsMnemonicValid(s, Langs[l]) })
-		fmt.Printf("CheckMnemonic / IsMnemonicValid(%q, %s) panic=%q\n", s, ref.LangNames[l], pn)
-		return pn == ""
+		done := make(chan string, 1)
+		go func() {
+			done <- call(func() { _ = bip39.CheckMnemonic(s, Langs[l]); _ = bip39.IsMnemonicValid(s, Langs[l]) })
+		}()
+		select {
+		case pn := <-done:
+			fmt.Printf("CheckMnemonic / IsMnemonicValid(%q, %s) panic=%q\n", s, ref.LangNames[l], pn)
+			return pn == ""
+		case <-time.After(hangDeadline):
+			fmt.Printf("CheckMnemonic / IsMnemonicValid(%q, %s) did not return within %v\n", s, ref.LangNames[l], hangDeadline)
+			return false
+		}
 	}
 	replayers["list-after-use"] = func(m *ref.Model, cs map[string]interface{}) bool {
 		l, i := toInt(cs["lang"]), toInt(cs["index"])
